@@ -1370,19 +1370,21 @@ int bufr_apply_tables2node
          {
          ddo->remain_dpi -= 1;
          }
-      if (ddo->remain_dpi == 0)
-         {
-         if (ddo->dpbm == NULL)
-            ddo->dpbm = bufr_index_dpbm( ddo, bsq );
-         bufr_init_dpbm( ddo->dpbm, ddo->start_dpi );
-         ddo->remain_dpi = -1;
-         }
+/*
+ * the last 0 31 031 of the bit-map: when decoding it has no value yet (this function runs
+ * before the value of the node is read), so the bit-map is evaluated at the next descriptor
+ */
       }
    else if ((ddo->flags & DDO_BIT_MAP_FOLLOW) && (cb->descriptor != 31031))
       {
       if (ddo->dpbm == NULL)
          ddo->dpbm = bufr_index_dpbm( ddo, bsq );
-      if ((ddo->remain_dpi > 0)&&(ddo->remain_dpi < ddo->dpbm->nb_codes))
+      if (ddo->remain_dpi == 0)
+         {
+         bufr_init_dpbm( ddo->dpbm, ddo->start_dpi );
+         ddo->remain_dpi = -1;
+         }
+      else if ((ddo->remain_dpi > 0)&&(ddo->remain_dpi < ddo->dpbm->nb_codes))
          {
          sprintf( errmsg, _("Warning: bitmap size %d != %d data present descriptors\n"),
             ddo->dpbm->nb_codes - ddo->remain_dpi, ddo->dpbm->nb_codes );
